@@ -207,9 +207,9 @@ func genericKey(a Atom) (string, bool, bool) {
 			return "", false, false
 		}
 		if c, ok := constInt(y); ok {
-			if la, isLen := lenArg(x); isLen && c == 0 {
+			if la, isLen := lenArg(x); isLen {
 				if k, ok := fieldRefKey(la); ok {
-					return "len(" + k + ")==0", neg, true
+					return "len(" + k + ")==" + itoa(c), neg, true
 				}
 			}
 			if k, ok := fieldRefKey(x); ok {
@@ -224,6 +224,57 @@ func genericKey(a Atom) (string, bool, bool) {
 				return k, neg != !b, true
 			}
 		}
+		if s, ok := constString(y); ok && s == "" {
+			if k, ok2 := fieldRefKey(x); ok2 {
+				return "empty(" + k + ")", neg, true
+			}
+		}
+		// field == parameter / field == field
+		if kx, ok := fieldRefKey(x); ok {
+			if prm, isP := canon(y).(*ssa.Parameter); isP {
+				return kx + "==$" + prm.Name(), neg, true
+			}
+			if ky, ok2 := fieldRefKey(y); ok2 {
+				if ky < kx {
+					kx, ky = ky, kx
+				}
+				return kx + "==" + ky, neg, true
+			}
+		}
+	case token.GTR, token.LSS, token.GEQ, token.LEQ:
+		// len(F) compared with a constant, normalised to len(F)>c
+		x, y, op := a.X, a.Y, a.Op
+		if isConstVal(x) {
+			x, y, op = y, x, flipOp(op)
+		}
+		c, ok := constInt(y)
+		la, isLen := lenArg(x)
+		if !ok || !isLen {
+			return "", false, false
+		}
+		k, ok := fieldRefKey(la)
+		if !ok {
+			if n, ok2 := localName(la); ok2 {
+				k = n
+			} else {
+				return "", false, false
+			}
+		}
+		// len > c  |  len >= c (= len > c-1)  |  len < c (= !(len > c-1))  |  len <= c (= !(len > c))
+		neg := false
+		switch op {
+		case token.GEQ:
+			c--
+		case token.LSS:
+			c--
+			neg = true
+		case token.LEQ:
+			neg = true
+		}
+		if c == 0 {
+			return "len(" + k + ")==0", !neg, true
+		}
+		return "len(" + k + ")>" + itoa(c), neg, true
 	}
 	return "", false, false
 }
@@ -331,6 +382,13 @@ func boolValueKey(v ssa.Value) (string, bool) {
 			}
 		}
 	}
+	if c, ok := v.(*ssa.Call); ok {
+		if f := c.Call.StaticCallee(); f != nil && len(c.Call.Args) == 1 && f.Signature.Recv() == nil {
+			if k, ok := fieldRefKey(c.Call.Args[0]); ok && !strings.HasPrefix(f.Name(), "Get") {
+				return fnBase(f) + "(" + k + ")", true
+			}
+		}
+	}
 	// a phi of bools all of whose non-constant leaves share one key (e.g. a
 	// flag that is also force-set in a dead branch)
 	if phi, ok := v.(*ssa.Phi); ok {
@@ -350,4 +408,18 @@ func boolValueKey(v ssa.Value) (string, bool) {
 		}
 	}
 	return "", false
+}
+
+func flipOp(op token.Token) token.Token {
+	switch op {
+	case token.LSS:
+		return token.GTR
+	case token.GTR:
+		return token.LSS
+	case token.LEQ:
+		return token.GEQ
+	case token.GEQ:
+		return token.LEQ
+	}
+	return op
 }
